@@ -105,7 +105,11 @@ func (dec *Decoder) readStringAsBytes(utf16Length int) (data []byte, safe bool) 
 		}
 		if !safe {
 			safe = true
-			data = make([]byte, 0, dec.prealloc(utf16Length)*3)
+			n := dec.prealloc(utf16Length) // utf16Length is negative after half a surrogate pair
+			if n < 0 {
+				n = 0
+			}
+			data = make([]byte, 0, n*3)
 		}
 		data = append(data, buf...)
 		if !dec.loadMore() {
